@@ -11,6 +11,7 @@ type boxOpts struct {
 	events    int  // user events per history
 	epochMax  int  // events injected between two forced quiescent points (1..epochMax)
 	big       bool // astronomically large pool blocks too
+	tight     bool // exhaustion bias (C07)
 	finalSync bool // C03: two forced re-syncs at the end (second must not write)
 }
 
@@ -22,7 +23,7 @@ func boxHistory(c *vfCase, mon boxMonFlags, o boxOpts, genSeed, schedSeed uint64
 }
 
 func boxHistoryOpt(c *vfCase, mon boxMonFlags, o boxOpts, genSeed, schedSeed uint64, crashAt int, faults []int, recordLabels bool) *cbox {
-	g := &boxGen{r: vfNewRand(genSeed), big: o.big}
+	g := &boxGen{r: vfNewRand(genSeed), big: o.big, tight: o.tight}
 	cb := newCbox(c, mon, schedSeed)
 	cb.k.CrashAt = crashAt
 	cb.k.RecordLabels = recordLabels
@@ -193,7 +194,12 @@ func (cb *cbox) stabilityWindow(prev, cur *boxQuiet, events []string) {
 const boxRule = "controller box: the real controller, allocator, ServiceReconciler and PoolReconciler run against an in-memory API store under a seeded scheduler (interleaved reconciles, stale reads, write conflicts); histories of service create/mutate/delete, pool edits (new layout, re-group/rename, flag flips, drop, grow, shrink, invalid edit + fix), namespace relabels and forced re-syncs; "
 
 func boxRun(t *testing.T, prop string, mon boxMonFlags, o boxOpts, sizes vfSizes, rule string) {
+	boxRunOpt(t, prop, mon, func(*vfCase) boxOpts { return o }, sizes, rule)
+}
+
+func boxRunOpt(t *testing.T, prop string, mon boxMonFlags, of func(*vfCase) boxOpts, sizes vfSizes, rule string) {
 	vfMain(t, prop, sizes, boxRule+rule, func(c *vfCase) {
+		o := of(c)
 		cb := boxHistory(c, mon, o, c.R.U64(), c.R.U64(), 0, nil)
 		if c.WantSample() && c.Idx >= 2 {
 			tr := c.Trace()
@@ -221,7 +227,9 @@ func TestVerif_C03(t *testing.T) {
 }
 
 func TestVerif_C07(t *testing.T) {
-	boxRun(t, "C07", boxMonFlags{c07: true}, boxOpts{events: 26, epochMax: 1}, vfSizes{Quick: 120, Thorough: 3000},
+	// half of the histories are drawn with the exhaustion bias (1-2 pools of 1-4 addresses, one dominant
+	// sharing key, two ports)
+	boxRunOpt(t, "C07", boxMonFlags{c07: true}, func(c *vfCase) boxOpts { return boxOpts{events: 26, epochMax: 1, tight: c.Idx%2 == 0} }, vfSizes{Quick: 160, Thorough: 3000},
 		"non-trivial = distinct quiescent point with a pending service whose admissible set the oracle found empty")
 }
 
@@ -351,7 +359,7 @@ func (cb *cbox) crashOracle() {
 		b := vfSvcRequirement(final[k]).StatusIPs
 		{
 			// who took it? (first change of the allocator memory after the crash that gave one of the addresses to another service)
-			thief, how := "", "dropped"
+			thief, how, phase := "", "dropped", ""
 			for _, w := range cb.memLog[rec.MemLog:] {
 				if w.Key == k || thief != "" {
 					continue
@@ -361,6 +369,7 @@ func (cb *cbox) crashOracle() {
 					for _, y := range a {
 						if cx == y {
 							thief = w.Key
+							phase = w.Phase
 						}
 					}
 				}
@@ -381,6 +390,10 @@ func (cb *cbox) crashOracle() {
 						how = "taken-as-additional-family-by-recorded-service"
 					}
 				}
+			}
+			if thief != "" && phase != "during-first-full-sync" {
+				// the known weakness lives inside the first full sync only; anything else is another defect
+				how += ":" + phase
 			}
 			c.Violation("restart:recorded-address-lost:"+how, fmt.Sprintf("%s had %v recorded when the controller stopped (point %d), the addresses stayed admissible, but after the restart it holds %v (%s %s); spec: %s",
 				k, a, rec.Point, b, how, thief, boxSvcDump(final[k])), nil)
